@@ -16,6 +16,12 @@ checks = {
  "C09": (MC, "histbfs", "explicit-state BFS over relay/confirm/conflict/reorg histories on the real implementation with a reference pending-set model",
    "Every history of relayed transactions (wallet spend, incoming payment, child, conflict, duplicate), blocks that confirm them or their conflicts, reorganisations and deliveries up to the stated depth runs on the real follower; in every state the wallet's pending buckets, the read-back of each pending entry, the spent_by_unmined flag of every coin and two automatic-selection probes are compared with a reference pending model, together with the C01 ledger oracle.",
    "§5 C09"),
+ "C10": (MC, "histbfs", "explicit-state BFS over staking/binding deposit, withdrawal, pending and reorg histories on the real implementation with a consensus-library lock oracle",
+   "Every history of staking/binding deposits (old and new style across the scaled warm-up height), their withdrawals, pending versions and reorganisations up to the stated depth runs on the real follower; in every state both history views, balances/withdrawable classification and the sequence and consensus lock status of wallet-built withdrawals are compared with the reference.",
+   "§5 C10"),
+ "C11": (MC, "dbmodel", "explicit-state BFS over database operation sequences on the real ldb backend against a nested-map model",
+   "Every sequence of transaction/bucket/key operations within the stated bounds is executed on the real LevelDB backend and after each one the complete readable content (through the open write transaction and through a fresh read transaction) is compared with a nested-map reference; a second pass covers the directory-backed create/open/close path.",
+   "§5 C11"),
  "C13": (MC, "enum", "bounded-exhaustive input enumeration against an independent BIP-39 reference",
    "Input-bounded model checking: every member of the described entropy / word-sequence families is run through the real mnemonic code and compared with an independent reference validated against BIP-39 vectors.", "§5 C13"),
  "C14": (MC, "enum", "bounded-exhaustive (seed x path) and corruption enumeration against an independent BIP-32 reference",
@@ -41,6 +47,8 @@ m = {
    "kind_free_text": "level-synchronous explicit-state BFS; the parent owns seen-set and frontier, worker processes replay each history on a fresh real wallet + real chain DB"},
   {"name": "simnode+world", "path": "harness/simnode harness/world", "serves_properties": [k for k, v in checks.items() if v[1] == "histbfs"],
    "kind_free_text": "closed environment: real mass-core chain DB driven with synthetic blocks, reference ledger, consensus oracle"},
+  {"name": "dbmodel", "path": "harness/models/c11", "serves_properties": ["C11"],
+   "kind_free_text": "reference nested-map model of the wallet database + full read-back oracle, explored by the histbfs parent"},
   {"name": "enum", "path": "harness/enum", "serves_properties": [k for k, v in checks.items() if v[1] == "enum"],
    "kind_free_text": "bounded-exhaustive enumeration of described finite input families against independent references, sharded over 16 worker processes"},
  ],
